@@ -993,6 +993,14 @@ func (w *world) opClaim(wrapper, inner int, n, h uint64, kind string) string {
 	}
 	if lo2 := w.k.GetLastObservedEventNonce(w.s.Ctx); lo2 != w.prevLo {
 		w.out.Count("observed:claim-kind:" + label[:1])
+		if label[0] == 'x' && res == "ok" {
+			// the theorem `panicking_handler_never_observes`, stated on the real state
+			what := "its batch is not in the store (never built, already executed, cancelled or timed out)"
+			if strings.HasPrefix(label, "x:") {
+				what = "it contradicts the stored oracle set of its nonce"
+			}
+			w.violate("C01", fmt.Sprintf("event nonce %d took effect although its handler has nothing it can apply: %s — such an event must not be observable (an event takes effect exactly once, with its effects)", n, what))
+		}
 		if sp.setNonce != 0 {
 			w.out.Count("observed:oracle-set-claim-with-real-nonce")
 		}
